@@ -486,13 +486,6 @@ class FComponent(Sequence):
         value.is_tstring = is_tstring
         return value
 
-    def replace(self, other, recursive=True):
-        super().replace(other, recursive)
-        for attr in self._extra_kwargs:
-            if hasattr(other, attr):
-                setattr(self, attr, getattr(other, attr))
-        return self
-
     def __repr__(self):
         return "hy.models.FComponent({})".format(
             (super(Object, self).__repr__()
@@ -585,7 +578,12 @@ def recwrap(f):
     return lambda_to_return
 
 
-_wrappers[FComponent] = recwrap(FComponent)
+_wrappers[FComponent] = lambda fc: recwrap(lambda els: FComponent(
+    els,
+    conversion=fc.conversion,
+    expression=fc.expression,
+    is_tstring=fc.is_tstring,
+))(fc)
 if PY3_14:
     _wrappers[Interpolation] = lambda interp: FComponent(
             [as_model(interp.value), as_model(interp.format_spec)],
